@@ -44,3 +44,36 @@ Lemma bundle_listed_notice_has_unmet_need (F : Type) (info : F -> file_info) (c 
 Proof.
   intros notices_of. apply (listed_notice_has_unmet_need F info gated_rules needs_table gated_rules_match_needs c).
 Qed.
+
+(* capabilities.rego as it is now: the rules defining the predicates are the ones the model was written from, so a
+   predicate holds by its rules exactly when [eval_pred] says so, for all capabilities *)
+Lemma cap_pred_rules_as_spec : pred_rules_eqb cap_pred_rules pred_rules_spec = true.
+Proof. vm_compute. reflexivity. Qed.
+
+Lemma cap_preds_as_written_lemma p c : pred_by_rules cap_pred_rules p c = eval_pred p c.
+Proof. rewrite (pred_rules_eqb_eq _ _ cap_pred_rules_as_spec). apply pred_rules_spec_sound. Qed.
+
+(* each gate follows its own need and no other: the value of a `notices` condition is the same for two targets that
+   agree on the dimensions the need of its row reads *)
+Lemma gate_follows_its_own_need_lemma g :
+  In g gated_rules ->
+  exists n, In n needs_table /\ g_cat g = nd_cat n /\ g_title g = nd_title n /\ g_severity g = nd_severity n /\
+            forall c c' f, (forall d, In d (need_reads (nd_need n)) -> dim_on d c = dim_on d c') ->
+                           eval_body c f (g_body g) = eval_body c' f (g_body g).
+Proof.
+  intros Hg. destruct (gate_matches_needs_lemma g Hg) as (n & Hn & H1 & H2 & H3 & H4).
+  exists n. repeat split; try assumption.
+  intros c c' f Hd. rewrite !H4. apply need_unmet_reads_only. exact Hd.
+Qed.
+
+(* targets that realise every on/off assignment of the dimensions read by the needs stand for all capabilities:
+   for any capabilities c one of the targets gives every gate of the tree the same value as c *)
+Lemma covering_targets_suffice_lemma targets :
+  dims_covered needs_table targets = true ->
+  forall c, exists c0, In c0 targets /\
+    forall g f, In g gated_rules -> eval_body c0 f (g_body g) = eval_body c f (g_body g).
+Proof.
+  intros H c. destruct (dims_covered_sound _ _ H c) as (c0 & Hin & Hr). exists c0. split; [exact Hin|].
+  intros g f Hg. destruct (gate_matches_needs_lemma g Hg) as (n & Hn & _ & _ & _ & H4).
+  rewrite !H4. apply Hr. exact Hn.
+Qed.
